@@ -36,7 +36,7 @@ def commaSep (l : List Nat) : String := ",".intercalate (l.map toString)
 /-- lines printed after every state-changing op -/
 def status (d : DS) (s : State) : List String :=
   let q := (List.range binCount).map (binHeld s)
-  [s!"P ok disjoint=1 align=1 intact=1 active={bytesActive s}", s!"W reserved={bytesReserved s}"] ++
+  [s!"P ok disjoint=1 align=1 intact=1 owned=1 active={bytesActive s}", s!"W reserved={bytesReserved s}"] ++
   (if d.tab.isEmpty then
      [s!"P quiescent ok={if q.all (· ≤ 1) then 1 else 0}", s!"W qbins={commaSep q}"]
    else [])
